@@ -4,6 +4,20 @@
   (= `generateBoxKey`, used by `Keyring.GenerateBoxKey` too) consumes exactly 32
   bytes of the randomness source — they ARE the secret key — and fails closed.
   Statements only; proofs in Proofs/BasicRT.lean.
+
+  Audit finding 11: the theorems suffixed `_def` restate the definition
+  (`createEphemeralKey := match Rand.readFull 32 … with …`) in iff form — kept as
+  the readable specification, not counted as results.  The results are
+  `C18_basic_creator_is_source`, `C18_basic_creator_fault`,
+  `C18_basic_generateBoxKey` and `C18_basic_seal_with_creator` (the ephemeral key
+  of `Seal` with `basic.EphemeralKeyCreator` IS the next 32 source bytes after
+  the shuffle draws; a failing read there fails `Seal`).
+
+  Model boundary of `Rand.readFull` (Model/Rand.lean), declared here because the
+  harness never scripts it: a `(0, nil)` read is modelled as a FAILURE whereas
+  `io.ReadFull` simply reads again, and a read that offers more than asked is
+  truncated with the surplus dropped; "consecutive calls draw disjoint
+  consecutive segments" is a statement about sources that do neither.
 -/
 import Saltpack.Proofs.BasicRT
 import Saltpack.Toy
@@ -15,7 +29,7 @@ open Saltpack Saltpack.Basic Saltpack.Proofs Saltpack.Proofs.BasicRing
     32-byte full read (`io.ReadFull` inside `box.GenerateKey`) succeeds; the
     secret is what the source delivered, the public key is computed from it,
     and what is left of the source is what that read left. -/
-theorem C18_basic_creator_draws (P : Prims) (src : Rand.Source) (sk : SecretKey) (rest : Rand.Source) :
+theorem C18_basic_creator_draws_def (P : Prims) (src : Rand.Source) (sk : SecretKey) (rest : Rand.Source) :
     createEphemeralKey P src = .ok (sk, rest) ↔
       ∃ s, Rand.readFull 32 src = some (s, rest) ∧ sk = ⟨P.boxPub s, s⟩ :=
   createEphemeralKey_ok_iff P src sk rest
@@ -30,7 +44,7 @@ theorem C18_basic_creator_is_source (P : Prims) (src : Rand.Source) (sk : Secret
 
 /-- **Fail closed**: the only error is the source's, it arises exactly when the
     32-byte read fails, and then there is no key (the result is `.error`) -/
-theorem C18_basic_creator_fail_closed (P : Prims) (src : Rand.Source) :
+theorem C18_basic_creator_fail_closed_def (P : Prims) (src : Rand.Source) :
     (Rand.readFull 32 src = none ↔ createEphemeralKey P src = .error .ioError) ∧
     (∀ e, createEphemeralKey P src = .error e → e = .ioError ∧ Rand.readFull 32 src = none) :=
   ⟨createEphemeralKey_fail_iff P src, createEphemeralKey_error_is_io P src⟩
@@ -53,7 +67,7 @@ theorem C18_basic_generateBoxKey (P : Prims) (k : Basic.Keyring) (src : Rand.Sou
 
 /-- `Keyring.GenerateSigningKey`: 32 bytes of seed, fail closed, and the keyring
     is returned unchanged (the key is not stored) -/
-theorem C18_basic_generateSigningKey (P : Prims) (k : Basic.Keyring) (src : Rand.Source) :
+theorem C18_basic_generateSigningKey_def (P : Prims) (k : Basic.Keyring) (src : Rand.Source) :
     (Rand.readFull 32 src = none → k.generateSigningKey P src = .error .ioError) ∧
     (∀ seed rest, Rand.readFull 32 src = some (seed, rest) →
       k.generateSigningKey P src = .ok (⟨P.sigPub seed, seed ++ P.sigPub seed⟩, k, rest)) := by
@@ -66,7 +80,7 @@ theorem C18_basic_generateSigningKey (P : Prims) (k : Basic.Keyring) (src : Rand
     (`EphSource.fromRand`, the case the existing C18 theorems cover) IS the basic
     creator: so `C18_seal_draws`, `C18_seal_fail_closed`, … are statements about
     sealing with `basic.EphemeralKeyCreator` -/
-theorem C18_basic_creator_is_fromRand (P : Prims) (src : Rand.Source) :
+theorem C18_basic_creator_is_fromRand_def (P : Prims) (src : Rand.Source) :
     (match Rand.readFull 32 src with
       | none => (Except.error Err.ioError : Except Err (Bytes × Rand.Source))
       | some (s, src2) => .ok (s, src2)) =
@@ -74,6 +88,41 @@ theorem C18_basic_creator_is_fromRand (P : Prims) (src : Rand.Source) :
       | .error e => .error e
       | .ok (sk, src2) => .ok (sk.sec, src2)) :=
   fromRand_is_basic_creator P src
+
+/-- **`Seal` with `basic.EphemeralKeyCreator`**: after the version / receiver
+    checks and the shuffle draws (which leave the source `src1`), the ephemeral
+    key of `Seal` is what the basic creator makes of `src1` — the NEXT 32 source
+    bytes —; if the creator fails (a failing or short read there) `Seal` fails
+    with the source's error and emits nothing; otherwise `Seal` continues with
+    that secret and the payload key drawn from what the creator left. -/
+theorem C18_basic_seal_with_creator (P : Prims) (bs : Nat) (v : Version) (hv : knownVersion v = true)
+    (sender : Option Bytes) (rs : List Encrypt.Recipient) (hrs : Encrypt.checkReceivers rs = .ok ())
+    (src : Rand.Source) (pt : Bytes) (js : List Nat) (src1 : Rand.Source)
+    (hsh : Encrypt.shuffleDraws (rs.length - 1) src (src.length + 1) = .ok (js, src1)) :
+    (∀ e, createEphemeralKey P src1 = .error e →
+      Encrypt.sealRand P bs v sender rs .fromRand src pt = .error .ioError) ∧
+    (∀ sk src2, createEphemeralKey P src1 = .ok (sk, src2) →
+      (∃ n, n ≤ src1.length ∧ src2 = src1.drop n ∧ sk.sec = (((src1.take n).map (·.data)).flatten).take 32) ∧
+      Encrypt.sealRand P bs v sender rs .fromRand src pt =
+        (match Rand.readFull 32 src2 with
+          | none => .error .ioError
+          | some (pk, src3) =>
+            match Encrypt.sealWith P bs v sender (Rand.shuffle js rs) sk.sec pk pt with
+            | .error e => .error e
+            | .ok m => .ok (m, src3))) := by
+  constructor
+  · intro e he
+    have hn := (createEphemeralKey_error_is_io P src1 e he).2
+    unfold Encrypt.sealRand
+    simp only [hv, Bool.not_true, Bool.false_eq_true, if_false, hrs, hsh, hn]
+  · intro sk src2 hok
+    refine ⟨(createEphemeralKey_spec P src1 sk src2 hok).2.2, ?_⟩
+    obtain ⟨s0, hr, rfl⟩ := (createEphemeralKey_ok_iff P src1 sk src2).1 hok
+    unfold Encrypt.sealRand
+    simp only [hv, Bool.not_true, Bool.false_eq_true, if_false, hrs, hsh, hr]
+    cases Rand.readFull 32 src2 with
+    | none => rfl
+    | some p => rfl
 
 /-! ## non-vacuity (kernel evaluation) -/
 
